@@ -18,7 +18,7 @@ from ..simfs import SimFS, Patched
 from ..snapshot import snap, diff as snapdiff
 from . import curves as CV
 
-PROPS = ("C05", "C06", "C08", "C11", "C12")
+PROPS = ("C05", "C06", "C08", "C11", "C12", "C20")
 DISTS = ("normal", "lognormal")
 
 _hv = None
